@@ -31,6 +31,8 @@ type ReplayFile struct {
 	Msg      string            `json:"msg"`
 	Prefix   []int             `json:"engine_prefix"`
 	Known    string            `json:"known_key,omitempty"`
+	Repeat   int               `json:"repeat,omitempty"`
+	Params   map[string]int    `json:"params,omitempty"`
 }
 
 type ReplayFault struct {
@@ -514,6 +516,15 @@ func (m *Machine) buildReplay(model Model, msg string) *ReplayFile {
 	}
 	rf.Prefix = append([]int(nil), m.prefix[:m.pos]...)
 	rf.Short = append([]int(nil), m.readLens...)
+	rf.Params = map[string]int{}
+	for k, v := range m.cfg.Params {
+		rf.Params[k] = v
+	}
+	if m.orderUsed {
+		// the counterexample depends on a map iteration order the Go runtime
+		// picks at random: the native side repeats the run
+		rf.Repeat = 3000
+	}
 	return rf
 }
 
